@@ -29,6 +29,8 @@ DocSeq == << Obj(<<a_, b_, c_>>, <<Arr(<<IntV(1), IntV(2), IntV(3), IntV(2)>>), 
              Obj(<<a_, b_>>, <<Arr(<<S(a_), Arr(<<IntV(1)>>), Obj(<<c_>>, <<IntV(2)>>), IntV(2)>>), Arr(<<Arr(<<IntV(1)>>), S(a_), Obj(<<c_>>, <<IntV(2)>>)>>)>>),
              Arr(<<IntV(1)>>), Obj(<<a_, b_>>, <<Arr(<<>>), Arr(<<IntV(1)>>)>>),
              Obj(<<a_, b_, c_>>, <<Obj(<<a_, c_>>, <<IntV(5), IntV(6)>>), Obj(<<b_, c_>>, <<IntV(6), IntV(5)>>), Arr(<<IntV(5)>>)>>),
+             \* strings where the operand queries put an index, a slice, a wildcard: nothing is selected from a string
+             Obj(<<a_, b_, c_>>, <<S(<<104, 101, 108, 108, 111>>), S(<<120, 121>>), S(a_)>>),
              \* a document that is a string - one that reads as the JSON text of the first document: it is a string all the same, nothing
              \* is selected from it (it can only be handed over as JSON text or in a file: the API reads a str argument as JSON text)
              S(<<123,34,97,34,58,91,49,44,50,44,51,44,50,93,44,34,98,34,58,91,50,44,51,44,52,93,44,34,99,34,58,51,125>>) >>
